@@ -702,3 +702,45 @@ _run_c33f = run
 def run(ctx):  # noqa: F811
     _run_c33f(ctx)
     r33_8(ctx, ctx.model)
+
+
+# ---------------------------------------------------------------------------------------------------------------- R33.9
+def r33_9(ctx, m):
+    R = "R33.9"
+    ctx.rule(R, "a nifty.re container that is both a SEQUENCE for NumPy (__len__ with __getitem__ or __iter__) and defines reflected "
+                "arithmetic operators opts out of NumPy's ufunc dispatch (`__array_ufunc__ = None`, or an own __array_ufunc__ / "
+                "__array_priority__): otherwise `np.float64(2.) * v` is evaluated by np.multiply on the vector converted to an array "
+                "- a bare ndarray without the tree structure (or a UFuncTypeError for dict trees) - while `v * np.float64(2.)` is right",
+             floor=1)
+    n = 0
+    for c in sorted(m.all_classes(), key=lambda c_: c_.module.name + "." + c_.qualname):
+        if not c.module.name.startswith("nifty.re"):
+            continue
+        names = set()
+        for st in c.node.body:
+            if isinstance(st, (ast.FunctionDef,)):
+                names.add(st.name)
+            elif isinstance(st, ast.Assign):
+                for t in st.targets:
+                    for e in (t.elts if isinstance(t, ast.Tuple) else [t]):
+                        if isinstance(e, ast.Name):
+                            names.add(e.id)
+        refl = sorted(x for x in names if x in ("__radd__", "__rsub__", "__rmul__", "__rtruediv__", "__rpow__", "__rmatmul__", "__rfloordiv__", "__rmod__"))
+        seq = "__len__" in names and ({"__getitem__", "__iter__"} & names)
+        if not refl or not seq:
+            continue
+        n += 1
+        opt = names & {"__array_ufunc__", "__array_priority__"}
+        key = f"{c.module.relpath}::{c.qualname}::defers NumPy left operands to its reflected operators"
+        ctx.check(R, key, bool(opt), f"defines {', '.join(refl[:3])}... and the sequence protocol; " + (f"opts out through {sorted(opt)}" if opt else
+                  "neither __array_ufunc__ nor __array_priority__ is set: a NumPy scalar on the left consumes it as a sequence"), c.module.relpath, c.node)
+    if not n:
+        ctx.und(R, "nifty.re::sequence-like containers with reflected operators", "none found", "nifty/re/tree_math/vector.py")
+
+
+_run_c33g = run
+
+
+def run(ctx):  # noqa: F811
+    _run_c33g(ctx)
+    r33_9(ctx, ctx.model)
